@@ -69,6 +69,7 @@ fn kind<T>(r: &std::io::Result<T>) -> Option<ErrorKind> {
 // C09/C10: names with a forbidden character or longer than 31 units are refused with InvalidInput, nothing changes
 #[kani::proof]
 #[kani::stub(std::fmt::format, stub_format)]
+#[kani::stub(std::ffi::OsStr::to_str, stub_osstr_to_str)]
 #[kani::stub(std::io::copy, stub_io_copy)]
 #[kani::stub(crate::internal::path::cfb_uppercase_char, super::uptable::table_upper)]
 #[kani::stub(crate::internal::timestamp::Timestamp::now, tacc::any_now)]
@@ -95,9 +96,10 @@ fn api_invalid_names() {
 
 // C10/C01: refused calls (NotFound / AlreadyExists / InvalidInput) have no effect
 macro_rules! api_refused {
-    ($name:ident, $body:expr, $kind:expr) => {
+    ($name:ident, |$c:ident| $e:expr, $kind:expr) => {
         #[kani::proof]
         #[kani::stub(std::fmt::format, stub_format)]
+        #[kani::stub(std::ffi::OsStr::to_str, stub_osstr_to_str)]
         #[kani::stub(std::io::copy, stub_io_copy)]
         #[kani::stub(crate::internal::path::cfb_uppercase_char, super::uptable::table_upper)]
         #[kani::stub(crate::internal::timestamp::Timestamp::now, tacc::any_now)]
@@ -105,14 +107,16 @@ macro_rules! api_refused {
         fn $name() {
             let mut p = small_parts(&[1, EOC, EOC], 0, 100, 2, 64);
             let em = p.em;
-            let mut c = mk_comp(&mut p);
-            let s0 = snap(&c);
-            let f: fn(&mut CompoundFile<PS>) -> Option<ErrorKind> = $body;
-            let k = f(&mut c);
+            let mut comp = mk_comp(&mut p);
+            let s0 = snap(&comp);
+            let k = {
+                let $c = &mut comp;
+                $e
+            };
             assert!(k == Some($kind), "C01/C10: refused call returned Ok or the wrong error kind");
-            assert!(unchanged(&c, &s0, &em), "C10: a refused call changed the file or the caches");
+            assert!(unchanged(&comp, &s0, &em), "C10: a refused call changed the file or the caches");
             kani::cover!(true, "end");
-            std::mem::forget(c);
+            std::mem::forget(comp);
         }
     };
 }
@@ -133,6 +137,7 @@ api_refused!(api_ref_state_missing, |c| kind(&c.set_state_bits("/nope", 3)), Err
 // C17/C02/C07: metadata setters on a storage / on a stream
 #[kani::proof]
 #[kani::stub(std::fmt::format, stub_format)]
+#[kani::stub(std::ffi::OsStr::to_str, stub_osstr_to_str)]
 #[kani::stub(crate::internal::path::cfb_uppercase_char, super::uptable::table_upper)]
 #[kani::unwind(140)]
 fn api_setters() {
